@@ -1,7 +1,8 @@
 /-
 Model/ArchiveIndex — `ArchiveIndexBuilder::build` → bytes → `ArchiveIndex::parse` (+ `validate`,
 `validate_toc_consistency`) → `binary_search_key` / `find_all_key_matches`; and the archive group
-(`ArchiveGroupBuilder::build` → `ArchiveGroup::parse` → `find_entry`), at record granularity.
+(`ArchiveGroupBuilder::build` / `add_archive`, the k-way heap merge `build_merged` →
+`ArchiveGroup::parse` → `find_entry`), at record granularity.
 
 Kept from the bytes: records per 4 KiB block, the truncation of size/offset to their field widths,
 the 6-byte offset split (archive index : offset), the zero-record = padding rule of the block
@@ -99,5 +100,61 @@ def groupFind (g : List GEntry) (k : Key) : Option GEntry :=
   match binarySearchBy (fun e => kcmp e.key k) g with
   | .ok i => g[i]?
   | .error _ => none
+
+/-! ### k-way merge of archive indices into a group (`build_merged`) -/
+
+/-- what `build_merged` writes into 4 KiB chunks (157 records each, TOC of last keys, element count)
+and `ArchiveIndex::parse` reads back: the part of `buildParse` after the sort. The merge emits its
+records in heap order and never sorts them. -/
+def serializeParse (ks ob rpb : Nat) (written : List Entry) : Option (Chunked Entry) :=
+  let blocks := chunksOf rpb written.length written
+  let toc := blocks.filterMap fun b => b.getLast?.map fun e => (e.key.take ks) ++ List.replicate (ks - e.key.length) 0
+  let parsed := (blocks.map fun b => (b.map (stored ob)).takeWhile (fun e => !e.isZero)).flatten
+  if !isSorted parsed then none
+  else if !tocConsistent parsed toc rpb then none
+  else some { entries := parsed, toc := toc, rpb := rpb }
+
+/-- one source of the merge: the archive number written into the 6-byte offset and the entries the
+cursor has not passed yet (the heap holds the head of every non-exhausted source) -/
+abbrev Src := Nat × List Entry
+
+/-- `BinaryHeap::pop` under `HeapEntry::cmp` (key, then `source_idx`, reversed for a min-heap): the
+head with the smallest key; among equal keys the lowest source index. Returns (source index,
+archive number, entry). -/
+def pickMin : List Src → Nat → Option (Nat × Nat × Entry) → Option (Nat × Nat × Entry)
+  | [], _, best => best
+  | (_, []) :: rest, i, best => pickMin rest (i + 1) best
+  | (a, e :: _) :: rest, i, best =>
+    match best with
+    | none => pickMin rest (i + 1) (some (i, a, e))
+    | some (_, _, b) => if klt e.key b.key then pickMin rest (i + 1) (some (i, a, e)) else pickMin rest (i + 1) best
+
+/-- the heap loop of `build_merged`: pop the smallest head, advance that source's cursor (always —
+before the duplicate test), skip the record when its key equals the previous OUTPUT key, else emit it
+with its source's archive number and `offset as u32`. -/
+def kmerge : Nat → List Src → Option Key → List GEntry
+  | 0, _, _ => []
+  | fuel + 1, srcs, prev =>
+    match pickMin srcs 0 none with
+    | none => []
+    | some (i, a, e) =>
+      let srcs' := srcs.modify i fun s => (s.1, s.2.tail)
+      if prev == some e.key then kmerge fuel srcs' prev
+      else { key := e.key, archive := a, offset := e.offset % 2 ^ 32, size := e.size } :: kmerge fuel srcs' (some e.key)
+
+def totalLen (srcs : List Src) : Nat := (srcs.map (·.2.length)).sum
+
+/-- `build_merged` over parsed source indices → bytes → `ArchiveGroup::parse` -/
+def mergedBuildParse (rpb : Nat) (srcs : List Src) : Option (List GEntry) :=
+  let es := (kmerge (totalLen srcs + 1) srcs none).map fun g =>
+    ({ key := g.key, size := g.size, offset := g.offset, archive := some g.archive } : Entry)
+  (serializeParse 16 6 rpb es).map fun c =>
+    c.entries.map fun e => { key := e.key, archive := e.archive.getD 0, offset := e.offset % 2 ^ 32, size := e.size }
+
+/-- `ArchiveGroupBuilder::add_archive` for every source in order (first occurrence of a key stays),
+then `build` → `ArchiveGroup::parse` -/
+def addArchivesBuildParse (rpb : Nat) (srcs : List Src) : Option (List GEntry) :=
+  groupBuildParse rpb (srcs.flatMap fun (a, es) =>
+    es.map fun e => { key := e.key, archive := a, offset := e.offset % 2 ^ 32, size := e.size })
 
 end Cascette.Model.ArchiveIndex
